@@ -313,8 +313,9 @@ def _run(prop, pid, a, seed, cases, nworkers, scratch, t0):
         for c in crashes:
             if not (c["returncode"] < 0 and "case" in (c.get("progress") or {})):
                 inconclusive.append(f"worker {c['worker']} exited {c['returncode']}: {c.get('log_tail','')[-1500:]}")
-        reach = getattr(prop, "REACH", {}).get(a.tier, {})
-        scale = cases / float(prop.CASES[a.tier])
+        reach = getattr(prop, "REACH", {}).get(a.tier) or getattr(prop, "REACH", {}).get("quick", {})
+        # the floors are those of the quick budget (set >= 7 standard deviations below the mean count of a quick run); a larger run must reach them too
+        scale = cases / float(prop.CASES["quick" if a.tier not in getattr(prop, "REACH", {}) else a.tier])
         for cls, need in reach.items():
             need = max(1, int(need * min(1.0, scale)))
             if classes.get(cls, 0) + counters.get(cls, 0) < need:
@@ -351,10 +352,10 @@ def _run(prop, pid, a, seed, cases, nworkers, scratch, t0):
         json.dump(ev, open(os.path.join(VERIF, "evidence", f"{pid}.json"), "w"), indent=1, default=str)
     print(f"[{pid}] tier={a.tier} seed={seed} cases={evaluations} distinct_nontrivial={len(sigs)} "
           f"violation_keys={len(unlisted)} known_reproduced={len(reproduced)} wall={wall:.1f}s")
-    top = ", ".join(f"{k}={v}" for k, v in sorted(classes.items())[:60])
+    top = ", ".join(f"{k}={v}" for k, v in sorted(classes.items())[:(100000 if os.environ.get("VERIF_FULL_COUNTERS") else 60)])
     print(f"[{pid}] classes: {top}")
     if counters:
-        print(f"[{pid}] monitor events: " + ", ".join(f"{k}={v}" for k, v in sorted(counters.items())[:80]))
+        print(f"[{pid}] monitor events: " + ", ".join(f"{k}={v}" for k, v in sorted(counters.items())[:(100000 if os.environ.get("VERIF_FULL_COUNTERS") else 80)]))
     if harness_errors:
         print(f"[{pid}] {len(harness_errors)} harness errors; first: {harness_errors[0]['harness_error'][-1200:]}")
     for l in lines:
